@@ -110,13 +110,14 @@ pub fn impure_log_args(m: &syn::Macro) -> Result<Vec<Expr>, String> {
     struct V(bool);
     impl<'a> Visit<'a> for V {
         fn visit_expr_method_call(&mut self, m: &'a syn::ExprMethodCall) {
-            const PURE: [&str; 16] = ["len", "is_empty", "is_some", "is_none", "is_ok", "is_err", "as_ref", "as_str", "to_string", "clone", "id", "to_owned", "display", "type_id", "as_deref", "strong_count"];
+            const PURE: [&str; 27] = ["len", "is_empty", "is_some", "is_none", "is_ok", "is_err", "as_ref", "as_str", "to_string", "clone", "id", "to_owned", "display", "type_id", "as_deref", "strong_count",
+                "weak_count", "is_finished", "is_closed", "is_canceled", "is_terminated", "capacity", "name", "task", "is_panic", "is_cancelled", "is_disconnected"];
             if !PURE.contains(&m.method.to_string().as_str()) { self.0 = true; }
             syn::visit::visit_expr_method_call(self, m);
         }
         fn visit_expr_call(&mut self, c: &'a syn::ExprCall) {
             let f = nospace(&c.func.to_token_stream().to_string());
-            if !(f.contains("type_name") || f == "Some" || f == "Ok" || f == "Err") { self.0 = true; }
+            if !(f.contains("type_name") || f == "Some" || f == "Ok" || f == "Err" || f.ends_with("strong_count") || f.ends_with("weak_count")) { self.0 = true; }
             syn::visit::visit_expr_call(self, c);
         }
         fn visit_expr_await(&mut self, _: &'a syn::ExprAwait) { self.0 = true; }
@@ -987,22 +988,39 @@ impl<'c> VisitMut for Rw<'c> {
 
         // ---------------- post-order ----------------
         // M5: a match-arm guard that calls something with an effect on the ghost world (`Some(a) if a.running() => ..`): the verifier does not
-        // track state changes made inside a guard. `P if G => A, _ => B` (the guarded arm directly before a final catch-all) is
-        // `P => if G { A } else { B }, _ => B`; any other shape with an effectful guard is outside the dialect
+        // track state changes made inside a guard. `P if G => A, .., Q => B` where Q is the first later arm that catches everything P matches and
+        // binds nothing (`_`, `Some(_)`), with only arms about other constructors in between, is `P => if G { A } else { B }, .., Q => B`;
+        // any other shape with an effectful guard is outside the dialect
         if let Expr::Match(mt) = e {
             let effectful = |g: &Expr| nospace(&g.to_token_stream().to_string()).contains("Tracked(w)");
             let n = mt.arms.len();
             let idx: Vec<usize> = (0..n).filter(|i| mt.arms[*i].guard.as_ref().map(|(_, g)| effectful(g)).unwrap_or(false)).collect();
             if !idx.is_empty() {
-                let last_is_catch_all = n >= 2 && mt.arms[n - 1].guard.is_none() && matches!(&mt.arms[n - 1].pat, syn::Pat::Wild(_));
-                if idx.len() == 1 && idx[0] == n - 2 && last_is_catch_all {
-                    let b = (*mt.arms[n - 1].body).clone();
-                    let arm = &mut mt.arms[n - 2];
-                    let (_, g) = arm.guard.take().unwrap();
-                    let a = (*arm.body).clone();
-                    arm.body = Box::new(parse_quote!(if #g { #a } else { #b }));
-                    if arm.comma.is_none() { arm.comma = Some(Default::default()); }
-                    self.cx.fire("M5");
+                // constructor name of a pattern (`Some(..)` -> Some, `None` -> None), and "matches everything P matches, binds nothing"
+                fn ctor_of(p: &syn::Pat) -> Option<String> { match p { syn::Pat::TupleStruct(t) => t.path.segments.last().map(|s| s.ident.to_string()), syn::Pat::Path(pp) => pp.path.segments.last().map(|s| s.ident.to_string()), syn::Pat::Ident(pi) if pi.subpat.is_none() && pi.ident.to_string().chars().next().map(|c| c.is_uppercase()).unwrap_or(false) => Some(pi.ident.to_string()), _ => None } }
+                fn subsumes(q: &syn::Pat, p: &syn::Pat) -> bool { match q { syn::Pat::Wild(_) => true, syn::Pat::TupleStruct(t) => ctor_of(q).is_some() && ctor_of(q) == ctor_of(p) && t.elems.iter().all(|e| matches!(e, syn::Pat::Wild(_))), _ => false } }
+                let mut ok = true;
+                let mut plan: Vec<(usize, usize)> = vec![];
+                for &i in &idx {
+                    let mut found: Option<usize> = None;
+                    for j in i + 1..n {
+                        if mt.arms[j].guard.is_none() && subsumes(&mt.arms[j].pat, &mt.arms[i].pat) { found = Some(j); break; }
+                        // an arm in between must be about another constructor (it cannot catch what falls through arm i)
+                        let disjoint = mt.arms[j].guard.is_none() && ctor_of(&mt.arms[j].pat).is_some() && ctor_of(&mt.arms[i].pat).is_some() && ctor_of(&mt.arms[j].pat) != ctor_of(&mt.arms[i].pat);
+                        if !disjoint { break; }
+                    }
+                    match found { Some(j) => plan.push((i, j)), None => { ok = false; break; } }
+                }
+                if ok {
+                    for (i, j) in plan {
+                        let b = (*mt.arms[j].body).clone();
+                        let arm = &mut mt.arms[i];
+                        let (_, g) = arm.guard.take().unwrap();
+                        let a = (*arm.body).clone();
+                        arm.body = Box::new(parse_quote!(if #g { #a } else { #b }));
+                        if arm.comma.is_none() { arm.comma = Some(Default::default()); }
+                        self.cx.fire("M5");
+                    }
                 } else {
                     self.cx.err(format!("outside dialect: a match guard with an effect on the ghost world in {}", self.fn_name));
                 }
